@@ -73,11 +73,12 @@ Definition Kprop (g g' : gst) (t : nat) (ls : nat -> lst) (l' : lst) : Prop :=
 Lemma k_assemble g g' t ls l' :
   Inv (g, ls) -> Kprop g g' t ls l' -> Inv (g', upd_l ls t l').
 Proof.
-  intros (HG & HL & HMU) (K1 & K2 & K3 & K4 & K5 & K6 & K7). cbn [fst snd] in *.
+  intros (HG & HL & HMU) (K1 & K2 & K3 & K4 & K5 & K6 & K7). unfold Inv. cbn [fst snd] in *.
   split; [exact K1|]. split.
   - intros t'. destruct (Nat.eq_dec t' t) as [->|Ne].
     + rewrite upd_l_same. exact K2.
-    + rewrite upd_l_other by auto. apply linv_frame with (g := g); auto.
+    + rewrite upd_l_other by auto.
+      apply linv_frame with (g := g); [apply HL | exact K3 | intros h; apply K4; auto | intros i; apply K5; auto].
   - intros Hs t1 t2 i E1 E2.
     destruct (Nat.eq_dec t1 t) as [->|N1], (Nat.eq_dec t2 t) as [->|N2]; auto.
     + rewrite upd_l_same in E1. rewrite upd_l_other in E2 by auto.
